@@ -1,7 +1,7 @@
 (* Base.v -- lemmas shared by all soundness proofs: membership in initialize,
    one-step evaluation equations, Z arithmetic set-up. *)
 From Coq Require Import ZArith List Bool Lia ZifyBool.
-From PS.model Require Import Smt Enc Prog.
+From PS.model Require Import Smt Enc Ind Prog.
 Import ListNotations.
 Open Scope Z_scope.
 
@@ -13,6 +13,7 @@ Lemma teval_eq e t : teval e t =
   | TDiv a b => teval e a / teval e b | TMod a b => teval e a mod teval e b
   | TIte c a b => if feval e c then teval e a else teval e b
   | TSel arr i => av e arr (teval e i)
+  | TApp f a => fapp (fv e f) (teval e a)
   end.
 Proof. destruct t; reflexivity. Qed.
 
@@ -31,6 +32,9 @@ Lemma feval_eq e f : feval e f =
   | FPbGe l k => fcount e l >=? k
   | FPbEq l k => fcount e l =? k
   | FArrFix arr i v => av e arr (teval e i) =? teval e v
+  | FFunPoint f t q =>
+      (fapp (fv e f) (teval e t) =? q)
+      && forallb (fun kv => (fst kv =? teval e t) || (fapp (fv e f) (fst kv) =? 0)) (fv e f)
   end.
 Proof. destruct f; reflexivity. Qed.
 
@@ -64,7 +68,7 @@ Proof.
   - intros H g f Hin. apply in_flat_map in Hin as (a & Ha & Hin). eapply H; eauto.
 Qed.
 
-(* the five blocks of initialize *)
+(* the blocks of initialize *)
 Lemma sat_initialize e st : sat e (initialize st) ->
   (forall t, In t (ps_tasks st) ->
       (forall f, In f (task_asserts st t) -> feval e f = true)
@@ -78,7 +82,8 @@ Lemma sat_initialize e st : sat e (initialize st) ->
 Proof.
   unfold initialize. intros H.
   apply sat_app in H as [Ht H]. apply sat_app in H as [Hw H].
-  apply sat_app in H as [Hc H]. apply sat_app in H as [Hk Hh].
+  apply sat_app in H as [Hc H]. apply sat_app in H as [Hi H]. apply sat_app in H as [Hk H].
+  apply sat_app in H as [Hb Hh].
   repeat split.
   - intros f Hf. rewrite sat_flat_map in Ht. specialize (Ht t H).
     apply sat_app in Ht as [Ht _]. rewrite sat_tagged in Ht. auto.
@@ -89,6 +94,20 @@ Proof.
     rewrite sat_tagged in Hc. auto.
   - intros t Hin f Hf. rewrite sat_flat_map in Hk. specialize (Hk t Hin). rewrite sat_tagged in Hk. auto.
   - intros h Hh'. rewrite Hh' in Hh. apply (Hh TgProblem). now left.
+Qed.
+
+(* indicators and buffers *)
+Lemma sat_initialize_ext e st : sat e (initialize st) ->
+  (forall i, In i (x_inds (ps_ext st)) -> forall f, In f (ind_asserts i) -> feval e f = true)
+  /\ (forall b, In b (x_bufs (ps_ext st)) -> forall f, In f (buffer_block b) -> feval e f = true).
+Proof.
+  unfold initialize. intros H.
+  apply sat_app in H as [_ H]. apply sat_app in H as [_ H].
+  apply sat_app in H as [_ H]. apply sat_app in H as [Hi H]. apply sat_app in H as [_ H].
+  apply sat_app in H as [Hb _].
+  split.
+  - intros i Hin f Hf. rewrite sat_flat_map in Hi. specialize (Hi i Hin). rewrite sat_tagged in Hi. auto.
+  - intros b Hin f Hf. rewrite sat_flat_map in Hb. specialize (Hb b Hin). rewrite sat_tagged in Hb. auto.
 Qed.
 
 Lemma forallb_In {A} (p : A -> bool) l : forallb p l = true <-> forall x, In x l -> p x = true.
